@@ -221,8 +221,54 @@ func (e *Engine) havocList(st *State, ctx *EvalCtx, cl *Clause) {
 	e.havoc(st, ms)
 }
 
+// The ghost event log is append-only by construction (only logEvent writes it, at index evLen,
+// and then increments evLen). Whatever a callee does, the entries below the length at the call
+// survive and the length does not shrink. evSnapshot/evAppendOnly state exactly that for the
+// arrays that exist at the call (an array that does not exist yet has no recorded facts).
+type evSnap struct {
+	n    *Term
+	arrs map[string]*Term
+}
+
+func (e *Engine) evSnapshot(st *State) *evSnap {
+	s := &evSnap{n: st.evLen(), arrs: map[string]*Term{}}
+	for _, k := range sortedKeysV(st.Ghost) {
+		if strings.HasPrefix(k, "ev:") {
+			if t, ok := st.Ghost[k].(*Term); ok {
+				s.arrs[k] = t
+			}
+		}
+	}
+	return s
+}
+
+func (e *Engine) evAppendOnly(st *State, old *evSnap) {
+	if _, ok := st.Ghost["evLen"]; !ok {
+		st.Ghost["evLen"] = Fresh("G:evLen", BV64)
+	}
+	st.Assume(BVCmp("bvule", old.n, st.evLen()))
+	st.Assume(BVCmp("bvult", st.evLen(), BVU(1<<62, 64))) // A-EVLEN
+	var ks []string
+	for k := range old.arrs {
+		ks = append(ks, k)
+	}
+	sort.Strings(ks)
+	for _, k := range ks {
+		oa := old.arrs[k]
+		na := st.evArray(k, oa.Sort.Elem)
+		if na == oa {
+			continue
+		}
+		T.fresh["q:ev"]++
+		i := Var(fmt.Sprintf("ev?%d", T.fresh["q:ev"]), BV64)
+		st.Assume(Forall([]*Term{i}, Implies(BVCmp("bvult", i, old.n), Eq(Select(na, i), Select(oa, i)))))
+	}
+}
+
 func (e *Engine) havoc(st *State, ms *ModSet) {
 	if ms.All {
+		evOld := e.evSnapshot(st)
+		defer e.evAppendOnly(st, evOld)
 		e.havocHeaps(st, nil)
 		e.havocMems(st)
 		e.havocGhosts(st, func(k string) bool { return !strings.Contains(k, "!") }, "hv:")
@@ -250,12 +296,14 @@ func (e *Engine) havoc(st *State, ms *ModSet) {
 		st.EpochMaps = newEpoch()
 	}
 	if ms.Ev {
-		e.havocGhosts(st, func(k string) bool { return strings.HasPrefix(k, "ev:") || k == "evLen" }, "G:")
+		evOld := e.evSnapshot(st)
+		e.havocGhosts(st, func(k string) bool { return strings.HasPrefix(k, "ev:") || k == "evLen" || k == "evPanic" }, "G:")
 		if _, ok := st.Ghost["evLen"]; !ok {
 			st.Ghost["evLen"] = Fresh("G:evLen", BV64)
 		}
 		st.HavocEv++
 		st.EpochEv = newEpoch()
+		e.evAppendOnly(st, evOld)
 	}
 	for _, name := range sortedKeysB(ms.Ghosts) {
 		g := e.cs.Ghosts[name]
@@ -444,6 +492,10 @@ func (e *Engine) checkFrame(p *Path, ms *ModSet, entry *State, exitKind string, 
 			continue
 		}
 		if ms.Ev && (name == "evLen" || strings.HasPrefix(name, "ev:")) {
+			continue
+		}
+		if name == "evPanic" {
+			// set by the model itself when a receiver call panics; belongs to the event log
 			continue
 		}
 		for _, leaf := range leaves(v) {
@@ -1162,6 +1214,7 @@ func (s *State) evLen() *Term {
 	}
 	v := Var("G:evLen"+s.EpochEv, BV64)
 	s.Ghost["evLen"] = v
+	s.Assume(BVCmp("bvult", v, BVU(1<<62, 64))) // A-EVLEN
 	return v
 }
 
@@ -1191,6 +1244,8 @@ func (e *Engine) registerLogMethods(it *types.Interface) {
 
 func (e *Engine) logEvent(st *State, method string, args []Value) {
 	n := st.evLen()
+	// A-EVLEN: the ghost event counter does not wrap (fewer than 2^62 receiver calls in one execution)
+	st.Assume(BVCmp("bvult", n, BVU(1<<62, 64)))
 	id, _ := e.methodID(method)
 	ma := st.evArray("ev:method", BV(16))
 	st.Ghost["ev:method"] = Store(ma, n, id)
@@ -1235,6 +1290,9 @@ func (e *Engine) logInvoke(p *Path, fr *Frame, lg string, c *ssa.CallCommon, rec
 		p.st.Ghost["ev:recv"] = Store(ra, n, rt)
 	}
 	p2 := p.clone()
+	if _, ok := e.cs.Ghosts["evPanic"]; ok {
+		p2.st.Ghost["evPanic"] = True // the receiver refused the event
+	}
 	e.raisePanic(p2)
 	rs := c.Method.Type().(*types.Signature).Results()
 	if rs.Len() > 0 {
@@ -1423,6 +1481,24 @@ func (e *Engine) VerifyFunc(key string) {
 			}
 			e.checkFrame(p, ms, entry, "return", exitPos)
 		} else {
+			// per-iteration exceptional contracts of the loops the path was inside when it panicked
+			for _, ord := range sortedLoopOrds(ct.Loops) {
+				ls := ct.Loops[ord]
+				snap := p.topIter[ord]
+				if len(ls.XSteps) == 0 || snap == nil {
+					continue
+				}
+				xc := *c
+				xc.old = snap
+				for i, x := range ls.XSteps {
+					t, err := xc.EvalBool(x.E)
+					if err != nil {
+						e.failObl("resolve", fmt.Sprintf("loop%d-xstep%d", ord, i), err.Error()+" at "+x.Where())
+						continue
+					}
+					e.obligeKeep(p, "xstep", fmt.Sprintf("loop%d.%d", ord, i), exitPos, t, x.Text)
+				}
+			}
 			if ct.MayPanic {
 				e.checkFrame(p, ms, entry, "panic", exitPos)
 				return
@@ -1462,6 +1538,15 @@ func (e *Engine) VerifyFunc(key string) {
 }
 
 func fr0(p *Path, fr *Frame) *Frame { return fr }
+
+func sortedLoopOrds(m map[int]*LoopSpec) []int {
+	var ks []int
+	for k := range m {
+		ks = append(ks, k)
+	}
+	sort.Ints(ks)
+	return ks
+}
 
 // obligeKeep is oblige without assuming the goal afterwards (exit obligations are independent).
 func (e *Engine) obligeKeep(p *Path, kind, detail string, pos token.Pos, goal *Term, clause string) {
